@@ -69,6 +69,7 @@ type Map struct {
 }
 
 type Chan struct {
+	abs    *smt.Term // trace mode: abstract channel identified by this term
 	Cap    int
 	Buf    []Value
 	Closed bool
